@@ -31,6 +31,7 @@ type file struct {
 	*fileData
 	offset int64
 	flag   int
+	closed bool
 }
 
 type fileData struct {
@@ -195,11 +196,15 @@ func (f *fileData) info() hackpadfs.FileInfo {
 }
 
 func (f *file) Close() error {
-	if f.fileData == nil {
-		return hackpadfs.ErrClosed
+	if f.closed {
+		return f.closedErr("close")
 	}
-	f.fileData = nil
+	f.closed = true
 	return nil
+}
+
+func (f *file) closedErr(op string) error {
+	return &hackpadfs.PathError{Op: op, Path: f.path, Err: hackpadfs.ErrClosed}
 }
 
 // Size returns the current size of this file's contents.
@@ -238,6 +243,9 @@ func (f *file) ReadAt(p []byte, off int64) (n int, err error) {
 }
 
 func (f *file) ReadBlobAt(length int, off int64) (b blob.Blob, n int, err error) {
+	if f.closed {
+		return nil, 0, f.closedErr("read")
+	}
 	if off >= int64(f.Size()) {
 		return nil, 0, io.EOF
 	}
@@ -262,6 +270,9 @@ func (f *file) ReadBlobAt(length int, off int64) (b blob.Blob, n int, err error)
 }
 
 func (f *file) Seek(offset int64, whence int) (int64, error) {
+	if f.closed {
+		return 0, f.closedErr("seek")
+	}
 	newOffset := f.offset
 	switch whence {
 	case io.SeekStart:
@@ -286,6 +297,9 @@ func (f *file) Write(p []byte) (n int, err error) {
 }
 
 func (f *file) WriteBlob(p blob.Blob) (n int, err error) {
+	if f.closed {
+		return 0, f.closedErr("write")
+	}
 	off := f.offset
 	if f.flag&hackpadfs.FlagAppend != 0 && p.Len() > 0 {
 		// appending moves the offset to the end of the file
@@ -301,6 +315,9 @@ func (f *file) WriteAt(p []byte, off int64) (n int, err error) {
 }
 
 func (f *file) WriteBlobAt(p blob.Blob, off int64) (n int, err error) {
+	if f.closed {
+		return 0, f.closedErr("writeat")
+	}
 	if f.flag&hackpadfs.FlagAppend != 0 {
 		// like os.File: invalid use of WriteAt on file opened with O_APPEND
 		return 0, &hackpadfs.PathError{Op: "writeat", Path: f.path, Err: hackpadfs.ErrInvalid}
@@ -348,11 +365,17 @@ func (f *file) writeBlobAt(op string, p blob.Blob, off int64) (n int, err error)
 }
 
 func (f *file) Stat() (hackpadfs.FileInfo, error) {
+	if f.closed {
+		return nil, f.closedErr("stat")
+	}
 	_ = f.Size() // report the current size, not the size at fetch time
 	return fileInfo{Record: &f.runOnceFileRecord, Path: f.path}, nil
 }
 
 func (f *file) Truncate(size int64) error {
+	if f.closed {
+		return f.closedErr("truncate")
+	}
 	if f.Mode().IsDir() {
 		return &hackpadfs.PathError{Op: "truncate", Path: f.path, Err: hackpadfs.ErrIsDir}
 	}
@@ -386,6 +409,9 @@ func (f *file) Truncate(size int64) error {
 }
 
 func (f *file) ReadDir(n int) ([]hackpadfs.DirEntry, error) {
+	if f.closed {
+		return nil, f.closedErr("readdir")
+	}
 	dirNames, err := f.ReadDirNames()
 	if err != nil {
 		return nil, &hackpadfs.PathError{Op: "readdir", Path: f.path, Err: err}
@@ -447,6 +473,9 @@ func (d *dirEntry) Info() (hackpadfs.FileInfo, error) {
 }
 
 func (f *file) Chmod(mode hackpadfs.FileMode) error {
+	if f.closed {
+		return f.closedErr("chmod")
+	}
 	newMode := (f.Mode() & ^chmodBits) | (mode & chmodBits)
 	f.modeOverride = &newMode
 	return f.save()
